@@ -326,13 +326,42 @@ package z
 
 //@ func (a *Allocator) Allocate(sz int) []byte
 //@   requires 0 <= sz && (a == nil || (GcWfChunks(a) && GcWfPos(a)))
-//@   panics_if [C12] #toolarge a != nil && (sz > 1<<30 || GcBI(a.compIdx) >= 62)
+//@   panics_if [C12] #toolarge a != nil && (sz > 1<<30 || forall k int :: GcBI(a.compIdx) < k && k < 64 ==> 0 < len(a.buffers[k]) && len(a.buffers[k]) < sz)
 //@   modifies a.compIdx, a.buffers[*]
+//@   infeasible loop1.body the re-check `newBufIdx != bufIdx` fails only when another goroutine moved compIdx between the add and the lock
 //@   loop 1 invariant GcWfChunks(a) && GcWfPos(a) && (GcBI(a.compIdx) > old(GcBI(a.compIdx)) || (GcBI(a.compIdx) == old(GcBI(a.compIdx)) && GcPI(a.compIdx) >= old(GcPI(a.compIdx))))
 //@   loop 1 invariant #kept forall i int :: 0 <= i && i < 64 && old(len(a.buffers[i])) > 0 ==> gcSameRef(a.buffers[i], old(a.buffers[i]))
+//@   loop 1 invariant #progress (a.compIdx == old(a.compIdx) && forall i int :: 0 <= i && i < 64 ==> gcSameRef(a.buffers[i], old(a.buffers[i]))) || (exists k int :: GcBI(a.compIdx) <= k && k < 64 && len(a.buffers[k]) >= sz && (k == GcBI(a.compIdx) ==> GcPI(a.compIdx) == 0))
 //@   ensures [C12] #nil a == nil ==> len(result) == sz && (sz > 0 ==> gcFresh(result))
 //@   ensures [C12] #empty a != nil && sz == 0 ==> len(result) == 0 && a.compIdx == old(a.compIdx)
 //@   ensures [C12] #wf a != nil ==> GcWfChunks(a) && GcWfPos(a)
 //@   ensures [C12] #exact a != nil && sz > 0 ==> len(result) == sz && gcSliceAt(result, a.buffers[GcBI(a.compIdx)], GcPI(a.compIdx)-sz) && GcPI(a.compIdx)-sz >= 0
 //@   ensures [C12] #above a != nil && sz > 0 ==> GcBI(a.compIdx) > old(GcBI(a.compIdx)) || (GcBI(a.compIdx) == old(GcBI(a.compIdx)) && GcPI(a.compIdx)-sz >= old(GcPI(a.compIdx)))
 //@   ensures [C12] #stable a != nil ==> forall i int :: 0 <= i && i < 64 && old(len(a.buffers[i])) > 0 ==> gcSameRef(a.buffers[i], old(a.buffers[i]))
+
+//@ func log2(sz int) int
+//@   trusted for sz < 1025 the answer comes from a table filled at init time with math.Log2 (floating point); the loop for larger sz is not separately verified
+//@   requires sz >= 1
+//@   ensures 0 <= result && result < 63 && (1<<uint(result)) <= sz && (result == 62 || sz < (1<<uint(result+1)))
+
+//@ func NewAllocator(sz int, tag string) *Allocator
+//@   requires sz <= 1<<30
+//@   noframe
+//@   ensures [C12] #wf result != nil && gcFresh(result) && GcWfChunks(result) && GcWfPos(result) && result.compIdx == 0
+//@   ensures [C12] #size len(result.buffers[0]) >= sz && len(result.buffers[0]) >= 512
+
+//@ func (a *Allocator) TrimTo(max int)
+//@   requires GcWfChunks(a)
+//@   modifies a.buffers[*]
+//@   loop 1 invariant #shape a != nil && len(a.buffers) == 64 && len(a.buffers[0]) > 0 && 0 <= alloc && alloc <= (rangeindex+1)*(1<<30) && old(GcWfChunks(a))
+//@   loop 1 invariant #old forall i int :: 0 <= i && i < 64 ==> (gcSameRef(a.buffers[i], old(a.buffers[i])) || (a.buffers[i] == nil && len(a.buffers[i]) == 0 && i <= rangeindex && i > 0 && alloc >= max))
+//@   loop 1 invariant #mono forall i, j int :: 0 <= i && i <= j && j <= rangeindex && j < 64 && len(a.buffers[i]) == 0 && old(len(a.buffers[i])) > 0 ==> len(a.buffers[j]) == 0
+//@   ensures [C12] #wf GcWfChunks(a)
+//@   ensures [C12] #kept forall i int :: 0 <= i && i < 64 && len(a.buffers[i]) > 0 ==> gcSameRef(a.buffers[i], old(a.buffers[i]))
+//@   ensures [C12] #first gcSameRef(a.buffers[0], old(a.buffers[0]))
+
+//@ func (a *Allocator) Copy(buf []byte) []byte
+//@   requires 0 <= len(buf) && (a == nil || (GcWfChunks(a) && GcWfPos(a)))
+//@   panics_if [C12] #toolarge a != nil && (len(buf) > 1<<30 || forall k int :: GcBI(a.compIdx) < k && k < 64 ==> 0 < len(a.buffers[k]) && len(a.buffers[k]) < len(buf))
+//@   modifies a.compIdx, a.buffers[*], a.buffers[*][*]
+//@   ensures [C12] #equal len(result) == len(buf) && forall i int :: 0 <= i && i < len(buf) ==> result[i] == old(buf[i])
